@@ -1343,6 +1343,64 @@ theorem float_encoding_decodes (f : Fmt) (k q : Nat) (heb : 1 ≤ f.eb) :
     (q < 2 ^ f.mb → decode f q = .fin false q f.emin) :=
   ⟨fun h1 h2 h3 => decode_encode_normal f k q h1 h2 h3, fun h => decode_encode_subnormal f q h heb⟩
 
+/-- **the result of every arithmetic operation, as a VALUE**: `ofRat f neg n d` — what `+ - * /` hand their exact
+    result to — decodes to ±Inf when the round-to-nearest-even magnitude reaches the all-ones exponent (overflow), and
+    otherwise to the float `± q · 2^(k + emin)` where `q` is the nearest-even integer of `float_rounding_nearest_even`
+    (`2^mb · 2^(k+1+emin)` when the rounding carried into the next binade) -/
+theorem float_ofRat_value (f : Fmt) (heb : 1 ≤ f.eb) (neg : Bool) (n d : Nat) (hn : n ≠ 0) (hd : d ≠ 0) :
+    ∃ (k q : Nat), roundMag f n d = k * 2 ^ f.mb + q ∧
+      q = rne (scaled n d ((k : Int) + f.emin)).1 (scaled n d ((k : Int) + f.emin)).2 ∧
+      ((f.infBits ≤ k * 2 ^ f.mb + q ∧ decode f (ofRat f neg n d) = .inf neg) ∨
+       (k * 2 ^ f.mb + q < f.infBits ∧ q < 2 * 2 ^ f.mb ∧ (k ≠ 0 → 2 ^ f.mb ≤ q) ∧
+          decode f (ofRat f neg n d) = .fin neg q ((k : Int) + f.emin)) ∨
+       (k * 2 ^ f.mb + q < f.infBits ∧ q = 2 * 2 ^ f.mb ∧
+          decode f (ofRat f neg n d) = .fin neg (2 ^ f.mb) ((k : Int) + 1 + f.emin))) :=
+  ofRat_value f heb neg n d hn hd
+
+/-- **`*` is IEEE-754 multiplication as a statement about values**: for finite operands `± m·2^e`, `± k·2^g` (any bit
+    patterns that decode so) the product is the zero of sign `s ≠ t` when a factor is zero, and otherwise
+    `ofRat (s ≠ t) N D` for the EXACT product `N/D = m·k·2^(e+g)` — with `float_ofRat_value`: the correctly rounded
+    product, ±Inf on overflow -/
+theorem float_mul_correctly_rounded (f : Fmt) (a b : Nat) (s t : Bool) (m k : Nat) (e g : Int)
+    (ha : decode f a = .fin s m e) (hb : decode f b = .fin t k g) :
+    (m * k = 0 → SoftFloat.mul f a b = withSign f (s != t) 0) ∧
+    (m * k ≠ 0 → ∃ N D : Nat, D ≠ 0 ∧ N ≠ 0 ∧ SoftFloat.mul f a b = ofRat f (s != t) N D ∧
+      N * 2 ^ (-(e + g)).toNat = m * k * 2 ^ (e + g).toNat * D) :=
+  mul_exact_then_round f a b s t m k e g ha hb
+
+/-- **`+` is IEEE-754 addition as a statement about values** (and `-`, which is `+` of the negated right operand): the
+    operands are aligned EXACTLY at `x = min e g`, summed as integers `S`; an exact zero sum is `+0` unless both
+    operands are negative (zeros) — the round-to-nearest rule for the sign of a zero sum —, any other sum is
+    `ofRat (S < 0) N D` for the exact `N/D = |S|·2^x` -/
+theorem float_add_correctly_rounded (f : Fmt) (a b : Nat) (s t : Bool) (m k : Nat) (e g : Int)
+    (ha : decode f a = .fin s m e) (hb : decode f b = .fin t k g) :
+    ∃ (x : Int) (S : Int), x ≤ e ∧ x ≤ g ∧ (x = e ∨ x = g) ∧
+      S = sgn s (m * 2 ^ (e - x).toNat) + sgn t (k * 2 ^ (g - x).toNat) ∧
+      (S = 0 → SoftFloat.add f a b = withSign f (s && t) 0) ∧
+      (S ≠ 0 → ∃ N D : Nat, D ≠ 0 ∧ N ≠ 0 ∧ SoftFloat.add f a b = ofRat f (decide (S < 0)) N D ∧
+        N * 2 ^ (-x).toNat = S.natAbs * 2 ^ x.toNat * D) :=
+  add_exact_then_round f a b s t m k e g ha hb
+
+/-- **`/` likewise**: for a finite non-zero dividend and divisor the quotient is `ofRat (s ≠ t) N D` for the EXACT
+    `N/D = (m·2^e) / (k·2^g)`.  (`math.Mod`: `fmod` computes the exact remainder, which needs no rounding — read off
+    the definition, no theorem.) -/
+theorem float_div_correctly_rounded (f : Fmt) (a b : Nat) (s t : Bool) (m k : Nat) (e g : Int)
+    (ha : decode f a = .fin s m e) (hb : decode f b = .fin t k g) (hk : k ≠ 0) (hm : m ≠ 0) :
+    ∃ N D : Nat, D ≠ 0 ∧ N ≠ 0 ∧ SoftFloat.div f a b = ofRat f (s != t) N D ∧
+      N * k * 2 ^ (g - e).toNat = m * 2 ^ (e - g).toNat * D :=
+  div_exact_then_round f a b s t m k e g ha hb hk hm
+
+/-! these can fail, and the hypotheses are met: MaxFloat64 · 2 overflows to +Inf and MaxFloat64 + MaxFloat64 too;
+    1 + (−1) is +0 and (−0) + (−0) is −0; 2^-1074 / 2 rounds (tie to even) to 0; the operands decode as finite -/
+set_option maxRecDepth 8000 in
+example : SoftFloat.mul f64 0x7FEFFFFFFFFFFFFF 0x4000000000000000 = 0x7FF0000000000000 ∧
+    SoftFloat.add f64 0x7FEFFFFFFFFFFFFF 0x7FEFFFFFFFFFFFFF = 0x7FF0000000000000 ∧
+    SoftFloat.add f64 0x3FF0000000000000 0xBFF0000000000000 = 0 ∧
+    SoftFloat.add f64 0x8000000000000000 0x8000000000000000 = 0x8000000000000000 ∧
+    SoftFloat.div f64 1 0x4000000000000000 = 0 ∧
+    decode f64 0x7FEFFFFFFFFFFFFF = .fin false (2 ^ 53 - 1) 971 ∧ decode f64 0x4000000000000000 = .fin false (2 ^ 52) (-51) := by
+  decide
+
 end FloatRounding
 
 /-! ## literals with an exponent inside the FIXED evaluator (`FixedFrom` → `f64.FromString` → `strconv.ParseFloat`, then
